@@ -61,6 +61,7 @@ def closed_pc(p, G, r, V0, B0, T):
 
 class C09(object):
     id = 'C09'
+    anchors = ('BaseHousehold.__init__', 'HouseholdWithExpectations.__init__', 'TaxFlow._GenerateEquations', 'DepositMarket._GenerateEquations', 'Sector.GenerateAssetWeighting', 'ModelSIMiterative.RunStep', 'ModelSIMiterative.RunMethod2')
     title = 'Textbook models obey their difference equations for any parameters'
     rule = ('one case = one parameter vector (alpha1 0.3-0.95, alpha2 0.05-0.6, theta 0.05-0.5, lambda0 0.4-0.8, lambda1 0-5, '
             'lambda2 0-0.05; on the 4-decimal grid or with full float precision), random government-spending and '
